@@ -443,7 +443,7 @@ pub fn run(run: &Run) {
     run.exhaustive("optional-field subsets of every struct model with <= 12 optional fields", true);
 
     // ---- phase B: seeded cases, round-robin over all targets
-    let n = run.n(60_000, 3_000_000);
+    let n = run.n(60_000, 15_000_000);
     par_for(n, |i| {
         let t = &ts[(i % ts.len() as u64) as usize];
         case(run, t, Src::fresh(Rng::derive(run.seed, 15, i)), None, i < 4 * ts.len() as u64 && i % 11 == 0);
